@@ -741,7 +741,8 @@ def run_factory(base, lay, case, tokloc, outdir):
                 dirs = set()
                 for d_, ds_, _fs in os.walk(outdir):
                     dirs.add(d_)
-                persisted = {"keep": keep, "new": sorted(new), "out": out, "doc": doc, "meta": meta,
+                persisted = {"keep": keep, "new": sorted(new), "newloc": sorted(set(kloc(f) or f for f in new)),
+                             "out": out, "doc": doc, "meta": meta,
                              "events": list(_AUD["events"]), "dirs": dirs,
                              "cp": [os.path.basename(p.path) if isinstance(p, sf.RawFileProvider) else None for p in provs]}
     finally:
@@ -855,7 +856,7 @@ def compare_factory(chk, case, ans, info, model):
             want = [m_rels[i] for i in per["keep"]]
             if i_rels != want:
                 bad.append(("relative_path", i_rels, want))
-            i_new = sorted(set(kloc(f) or f for f in per["new"]))
+            i_new = per["newloc"]
             # `cp src dst` with dst an existing directory copies INTO it (RawFileProvider.write; cp is not modelled)
             w_locs = [(m_locs[i].rstrip("/") + "/" + per["cp"][i]) if (per["cp"][i] and m_locs[i] in per["dirs"]) else m_locs[i]
                       for i in per["keep"]]
@@ -936,6 +937,19 @@ CMD_ALPH = ["/usr/bin/", "/bin/", "/usr/sbin/", "/sbin/", "/usr/", "ls", "cat", 
 
 def gstr(rng, alph, n):
     return "".join(rng.choice(alph) for _ in range(rng.randint(0, n)))
+
+
+def in_fmt_subset(t):
+    """every '%' of the template starts '%s' or '%%' (scanned left to right, as `%` formatting does)"""
+    i = 0
+    while i < len(t):
+        if t[i] == "%":
+            if t[i + 1:i + 2] not in ("s", "%"):
+                return False
+            i += 2
+        else:
+            i += 1
+    return True
 
 
 def py_norm(s):
@@ -1036,7 +1050,11 @@ def _run(chk, rng, base, n_layouts, n_val, n_fac, n_ser, n_prim):
             chk.count("validate:" + ans.split(" ")[0])
             chk.count("rootform:" + case["rootform"])
         for case in fcases:
-            ans, line, fails, info = run_factory(base, lay, case, tokloc, new_out())
+            od = new_out()
+            try:
+                ans, line, fails, info = run_factory(base, lay, case, tokloc, od)
+            finally:
+                shutil.rmtree(od, ignore_errors=True)
             full = dict(case, layout=lay)
             for desc, _, fid in fails:
                 chk.failure(desc, full, finding=fid)
@@ -1069,7 +1087,11 @@ def _run(chk, rng, base, n_layouts, n_val, n_fac, n_ser, n_prim):
         chk.count("corpus")
 
     # ---- generated layouts
+    import time as _t
+    _t0 = _t.time()
     for li in range(n_layouts):
+        if os.environ.get("C06_DEBUG") and li % 20 == 0:
+            print("layout", li, round(_t.time() - _t0, 1), len(dr.DELEGATES))
         lay = gen_layout(rng)
         for rel, kind in lay["links"]:
             chk.count("link:" + kind)
@@ -1128,7 +1150,11 @@ def _run(chk, rng, base, n_layouts, n_val, n_fac, n_ser, n_prim):
     s_cases, s_impl, s_lines = [], [], []
     for _ in range(n_ser):
         case = gen_ser_case(rng)
-        ans, line, fails = run_ser(base, case, new_out())
+        od = new_out()
+        try:
+            ans, line, fails = run_ser(base, case, od)
+        finally:
+            shutil.rmtree(od, ignore_errors=True)
         for desc, _, fid in fails:
             chk.failure(desc, case, finding=fid)
         chk.case(("s", case["kind"], case.get("rel"), case.get("cmd"), case["save"]), nontrivial=ans is not None)
@@ -1168,7 +1194,7 @@ def _run(chk, rng, base, n_layouts, n_val, n_fac, n_ser, n_prim):
         add(("splitws", k, a), "splitws\t%d\t%s" % (k, enc(a)), a.split(None, k))
         args = [gstr(rng, ["x", "y", "%", " "], 2) for _ in range(rng.randint(0, 3))]
         t = gstr(rng, ["a", "%s", "%s", "%%", " ", "/", "%"], 5)
-        ok_subset = "%" not in t.replace("%s", "").replace("%%", "")
+        ok_subset = in_fmt_subset(t)
         try:
             r = "ok " + (t % tuple(args))
         except Exception:
